@@ -2,7 +2,7 @@
    Audited statements only; proofs are in CIface/{Exn,Entries,C20}.v.  [entries], [prototypes],
    [enum_error_code] are regenerated from the working tree on every run (gen/Facts_CIface.v). *)
 From Coq Require Import List String ZArith Bool.
-Require Import PPLV.CIface.Exn PPLV.CIface.Entries PPLV.CIface.Spec PPLV.gen.Facts_CIface PPLV.CIface.C20.
+Require Import PPLV.CIface.Exn PPLV.CIface.Entries PPLV.CIface.Spec PPLV.gen.Facts_CIface PPLV.CIface.C20 PPLV.CIface.TimeoutSpec PPLV.CIface.Timeouts.
 Import ListNotations.
 
 (* --- generic theorems about C++ catch semantics (any chain) --- *)
@@ -103,3 +103,12 @@ Proof.
   split; [exact timeout_registration_holds|]. split;
   [exact (proj1 timeout_registrations_timeout_class) | exact registered_handlers_reset_own_watchdog].
 Qed.
+
+(* call SEQUENCES of the four registration entries (set/reset x wall-clock/deterministic), in any order, repeated, with
+   expiries in between: the machine driven by the regenerated bodies of the entries, of the reset helpers and by the handler
+   the regenerated chain selects on expiry ends in exactly the state of the specification machine -- each watchdog armed iff
+   the last event of ITS kind armed it, with the exception class of its kind and its last budget, nothing leaked, no other
+   pointer touched -- and is interrupted exactly when the specification says. *)
+Theorem timeout_sequences : forall ch, In ch nonempty_chains -> forall (l : list tev) (s : sstate),
+  code_run ch (embed s) l = (embed (fst (spec_run s l)), snd (spec_run s l)).
+Proof. exact timeout_sequences_l. Qed.
